@@ -41,6 +41,15 @@ def run(chk, st, tier):
                         "stats": rng.randrange(3), "crc": 0, "fok": 1, "encstats": 0}],
               "created_by": None, "kv": 0, "bsu": 0, "inject": None}
         cases.append(("g%d" % k, sh, fc, [recs]))
+    # pages beyond 32 KiB (window of deflate, read buffers): any page split is a legal writer choice
+    fn = next((s for s in shapes if s.name == "flatnum"), None)
+    if fn:
+        for k, codec in enumerate((2, 1) if tier == "quick" else (2, 1, 0, 2)):
+            nrec = 6000 if k < 3 else 8192
+            recs = ["G 2 %s %s" % (S.tok_num((i * 2654435761) % (1 << 40)), S.tok_num(4607182418800017408 + (i * 40503) % (1 << 30))) for i in range(nrec)]
+            fc = {"cols": [{"codec": codec, "sizes": [nrec if k < 3 else 4096], "reps": [2 * 9999], "defs": [2 * 9999], "pad": 0, "stats": k % 3, "crc": 0, "fok": 1, "encstats": 0}],
+                  "created_by": None, "kv": 0, "bsu": 0, "inject": None}
+            cases.append(("h%d" % k, fn, fc, [recs]))
     files, e2 = Fo.make_files(shapes, cases, "C04-write")
     if e2[0] != 0:
         chk.broke("machinery:C04", "foreign writer failed: %s" % (e2[1],))
@@ -99,6 +108,6 @@ def run(chk, st, tier):
     chk.sample({"shape": i0[1].name, "choices": Fo.file_choice_tokens(i0[2])[:200], "row_groups": [len(x) for x in i0[3]], "real_reader": (impl.get(i0[0]) or "")[:100]})
     chk.coverage["rule"] = ("files written by the extracted independent writer Foreign.foreign_file (specification RLE encoder, thrift model, real snappy/gzip) from random choices: run segmentation of every level stream "
                             "(RLE runs of any length >= 1, bit-packed runs of 1..70 groups, any padding value), independent page splits per column at record boundaries, per-column codec, statistics absent / current / also deprecated fields, "
-                            "CRC, created_by, key/value metadata, encoding_stats, three file_offset conventions, both total_byte_size conventions, row groups with no rows; over the portfolio shapes. Each file must be accepted by the validator (so it is conformant), "
+                            "CRC, created_by, key/value metadata, encoding_stats, three file_offset conventions, both total_byte_size conventions, row groups with no rows; over the portfolio shapes; plus numeric files with one 6000-record page per column (> 32 KiB) per codec. Each file must be accepted by the validator (so it is conformant), "
                             "then is read by the real generated reader (oracle: exactly the records) and by the reader model. distinct = distinct files.")
     chk.coverage["explanation"] = "see coq/props/C04.v."
